@@ -193,11 +193,11 @@ class Printer:
             mapping = mapping[:-1]
         self.note(mapping + ('!^' if hoist else ''))
         if hoist:
-            return self.hoist_call(self.apply_plain(mapping, args, selfexpr, node, key), node)
+            return self.hoist_call(self.apply_plain(mapping, args, selfexpr, node, key, objnode=objnode), node)
         if throws:
             self.may_throw = True
             self.pending_throw = True
-        return self.apply_plain(mapping, args, selfexpr, node, key, noted=True)
+        return self.apply_plain(mapping, args, selfexpr, node, key, noted=True, objnode=objnode)
 
     def hoist_call(self, text, node):
         if getattr(self, 'hoisted', None) is None:
@@ -217,7 +217,7 @@ class Printer:
         self.hoisted.append(f'if (nv_thrown) return {self.default_value(self.ret_ctype)};')
         return f'(*{t})' if byref else t
 
-    def apply_plain(self, mapping, args, selfexpr=None, node=None, key='', noted=False):
+    def apply_plain(self, mapping, args, selfexpr=None, node=None, key='', noted=False, objnode=None):
         if mapping == '@drop':
             return '((void)0)'
         if mapping == '@throw':
